@@ -45,6 +45,7 @@ def jobs(tier):
         for leaf in (b["leaves"] if tier == "thorough" else ["int09", "str-norm", "bool", "list-int", "dict-typed", "int-cd"]):
             out.append({"name": "%s/%s" % (sh, leaf), "shape": sh, "leaf": leaf, "depth": b["depth"], "tier": tier})
     out.append({"name": "env-built", "kind": "envbuilt"})
+    out.append({"name": "include-load", "kind": "include", "tier": tier})
     return out
 
 
@@ -338,8 +339,92 @@ def _envbuilt(job, ctx):
     ctx.sample({"env_built": list(ENV_KINDS)})
 
 
+INC_LEAVES = ["a", "sub.c", "sub.w2", "sub.deep.e"]
+
+
+def _include_load(job, ctx):
+    """a document load that pulls in an include file (named at the root / inside the sub-configuration): both documents may
+    name any subset of the fields; afterwards exactly the fields named by either document are user-defined and hold the
+    loaded value (the included file's on conflict), every other field shows its declared default and is not user-defined"""
+    import itertools
+    import json
+    import os
+    import cincoconfig as cc
+    only = job.get("only")
+    fmts = ["json"] if job.get("tier") != "thorough" else ["json", "yaml"]
+
+    def nest(assign):
+        t = {}
+        for path, v in assign.items():
+            node = t
+            parts = path.split(".")
+            for part in parts[:-1]:
+                node = node.setdefault(part, {})
+            node[parts[-1]] = v
+        return t
+    subsets = [c for r in range(len(INC_LEAVES) + 1) for c in itertools.combinations(INC_LEAVES, r)]
+    for where in ("root", "sub"):
+        for fmt in fmts:
+            for main in subsets:
+                for inc in subsets:
+                    if where == "sub" and "a" in inc:
+                        continue
+                    ident = [where, fmt, list(main), list(inc)]
+                    if only is not None and only != ident:
+                        continue
+                    s = cc.Schema()
+                    s.a = cc.IntField(default=1)
+                    s.w = cc.IntField(default=0)
+                    s.include = cc.IncludeField(startdir=ctx.tmp)
+                    s.sub.c = cc.IntField(default=2)
+                    s.sub.w2 = cc.IntField(default=3)
+                    s.sub.inc = cc.IncludeField(startdir=ctx.tmp)
+                    s.sub.deep.e = cc.IntField(default=4)
+                    defaults = {"a": 1, "sub.c": 2, "sub.w2": 3, "sub.deep.e": 4}
+                    f = cc.ConfigFormat.get(fmt)
+                    inc_tree = nest({p: 20 + INC_LEAVES.index(p) for p in inc})
+                    if where == "sub":
+                        inc_tree = inc_tree.get("sub", {})
+                    with open(os.path.join(ctx.tmp, "part.inc"), "wb") as fh:
+                        fh.write(f.dumps(None, inc_tree))
+                    main_tree = nest({p: 10 + INC_LEAVES.index(p) for p in main})
+                    if where == "root":
+                        main_tree["include"] = "part.inc"
+                    else:
+                        main_tree.setdefault("sub", {})["inc"] = "part.inc"
+                    cfg = s()
+                    ctx.transitions += 1
+                    case = {"kind": "include", "jobparams_full": {k: v for k, v in job.items() if k not in ("single", "only")}, "only": ident, "job": job["name"]}
+                    fp = "C12|include-load|%s|" % where
+                    try:
+                        cfg.loads(f.dumps(None, main_tree), fmt)
+                    except Exception as exc:  # noqa
+                        ctx.violation(fp + "raises", "main document names %s, included file names %s: the load raised %r" % (list(main), list(inc), exc), case)
+                        continue
+                    ctx.case(("include", where, fmt, main, inc), "include:%d+%d" % (len(main), len(inc)), True)
+                    for path in INC_LEAVES:
+                        owner = W.chained(cfg, path.rsplit(".", 1)[0]) if "." in path else cfg
+                        key = path.rsplit(".", 1)[-1]
+                        want = 20 + INC_LEAVES.index(path) if path in inc else (10 + INC_LEAVES.index(path) if path in main else defaults[path])
+                        got, defined = getattr(owner, key), cc.is_value_defined(owner, key)
+                        named = path in inc or path in main
+                        if got != want:
+                            ctx.violation(fp + "value|" + ("named" if named else "unnamed"), "main names %s, include names %s: %s reads %r, expected %r" % (list(main), list(inc), path, got, want), case)
+                        if defined != named:
+                            ctx.violation(fp + "mark|" + ("named" if named else "unnamed"), "main names %s, include names %s: %s %s user-defined" % (list(main), list(inc), path, "is" if defined else "is not"), case)
+                    if cc.is_value_defined(cfg, "w") or cfg.w != 0:
+                        ctx.violation(fp + "bystander", "the bystander field w changed", case)
+    ctx.states += 1
+    ctx.traces += 1
+
+
 def run_job(job, ctx):
     single = job.get("single")
+    if single and single.get("kind") == "include":
+        j = dict(single["jobparams_full"]); j["only"] = single["only"]
+        return _include_load(j, ctx)
+    if job.get("kind") == "include":
+        return _include_load(job, ctx)
     if single and single.get("kind") == "envbuilt":
         j = dict(single["jobparams_full"]); j["only"] = single["only"]
         return _envbuilt(j, ctx)
